@@ -18,6 +18,7 @@ type mapRange struct {
 	FnDecl ast.Node // enclosing FuncDecl or FuncLit
 	Info   *types.Info
 	File   *ast.File
+	Prog   *Program
 }
 
 func (p *Program) modulePackages() []*packages.Package {
@@ -82,7 +83,7 @@ func (p *Program) mapRanges() []mapRange {
 						break
 					}
 				}
-				out = append(out, mapRange{Stmt: rs, Fn: p.ssaFuncFor(encl, pk.TypesInfo), FnDecl: encl, Info: pk.TypesInfo, File: file})
+				out = append(out, mapRange{Stmt: rs, Fn: p.ssaFuncFor(encl, pk.TypesInfo), FnDecl: encl, Info: pk.TypesInfo, File: file, Prog: p})
 				return true
 			})
 		}
@@ -242,7 +243,7 @@ func analyseMapRange(mr mapRange) (findings []detFinding, accepted []string) {
 							continue
 						}
 					}
-					if isArgmaxGuard(guard, x, keyObj, info) {
+					if isArgmaxGuard(guard, x, keyObj, info) || isArgmaxGuardSemantic(mr, guard, x, keyObj) {
 						accepted = append(accepted, "selection of the extremal key under a strict total order on the keys")
 						continue
 					}
@@ -496,4 +497,88 @@ func renderWith(e ast.Expr, name func(*ast.Ident) string) string {
 	}
 	w(e)
 	return sb.String()
+}
+
+// isArgmaxGuardSemantic is isArgmaxGuard decided by evaluation instead of by shape: the carried key may be a field of a
+// carried struct (`match = T{key: k, ...}`), and the comparison may live in a helper (`match.improvedBy(k)`).
+func isArgmaxGuardSemantic(mr mapRange, guard []ast.Expr, as *ast.AssignStmt, keyObj types.Object) bool {
+	info := mr.Info
+	if keyObj == nil || len(guard) == 0 || mr.Prog == nil {
+		return false
+	}
+	var best types.Object
+	bestField := ""
+	objOf := func(id *ast.Ident) types.Object {
+		if o := info.Uses[id]; o != nil {
+			return o
+		}
+		return info.Defs[id]
+	}
+	if len(as.Lhs) == len(as.Rhs) {
+		for i, r := range as.Rhs {
+			l, ok := as.Lhs[i].(*ast.Ident)
+			if !ok {
+				continue
+			}
+			switch rx := unparen(r).(type) {
+			case *ast.Ident:
+				if info.Uses[rx] == keyObj {
+					best = objOf(l)
+				}
+			case *ast.CompositeLit:
+				for _, el := range rx.Elts {
+					kv, ok := el.(*ast.KeyValueExpr)
+					if !ok {
+						continue
+					}
+					if vid, ok := unparen(kv.Value).(*ast.Ident); ok && info.Uses[vid] == keyObj {
+						if kid, ok := kv.Key.(*ast.Ident); ok {
+							best, bestField = objOf(l), kid.Name
+						}
+					}
+				}
+			}
+		}
+	}
+	if best == nil {
+		return false
+	}
+	usesBest := func(e ast.Expr) bool {
+		u := false
+		ast.Inspect(e, func(n ast.Node) bool {
+			if id, ok := n.(*ast.Ident); ok && info.Uses[id] == best {
+				u = true
+			}
+			return true
+		})
+		return u
+	}
+	for _, g := range guard[:len(guard)-1] {
+		if usesBest(g) {
+			return false
+		}
+	}
+	var conj []ast.Expr
+	var split func(e ast.Expr)
+	split = func(e ast.Expr) {
+		e = unparen(e)
+		if b, ok := e.(*ast.BinaryExpr); ok && b.Op == token.LAND {
+			split(b.X)
+			split(b.Y)
+			return
+		}
+		conj = append(conj, e)
+	}
+	split(guard[len(guard)-1])
+	n := 0
+	for _, cj := range conj {
+		if !usesBest(cj) {
+			continue
+		}
+		n++
+		if !semanticArgmaxGuard(mr.Prog, info, cj, keyObj.Name(), best.Name(), bestField) {
+			return false
+		}
+	}
+	return n == 1
 }
